@@ -1,5 +1,5 @@
 (* E8 — lemmas about Model/Params.v and the decision procedure of Judge/E8.v *)
-From Coq Require Import List ZArith Bool Lia ZifyBool.
+From Coq Require Import List ZArith Bool Lia ZifyBool Permutation.
 From FB Require Import Lib.Eqb Model.Literals Model.Atoi Model.Params Judge.E8 Proofs.AtoiProofs.
 Import ListNotations.
 Open Scope Z_scope.
@@ -680,4 +680,91 @@ Proof.
       * intros [(t' & E & _)|(_ & _ & -> & _)]; [discriminate|reflexivity].
       * discriminate.
       * intros [(t' & E & _)|(_ & _ & -> & Hb)]; [discriminate|congruence].
+Qed.
+
+(* ---------- Go's map iteration order is irrelevant ---------- *)
+Lemma lookup_some_in_keys {A} k (m : list (bytes * A)) : isSome (lookup k m) = true <-> In k (map fst m).
+Proof.
+  induction m as [|[k' v] r IH]; cbn [lookup map fst In]; [split; [discriminate|contradiction]|].
+  destruct (bytes_eqb_spec k k') as [->|N]; [cbn; tauto|]. rewrite IH. split; [auto|intros [E|H]; congruence].
+Qed.
+
+Lemma keys_nodup_NoDup {A} (m : list (bytes * A)) : keys_nodup m = true <-> NoDup (map fst m).
+Proof.
+  induction m as [|[k v] r IH]; [cbn; split; [constructor|reflexivity]|].
+  rewrite keys_nodup_cons, andb_true_iff, negb_true_iff, IH. cbn [map fst]. split.
+  - intros [H1 H2]. constructor; [|assumption]. rewrite <- lookup_some_in_keys. congruence.
+  - intros H. inversion H as [|? ? Hn Hd]; subst. split; [|assumption].
+    destruct (isSome (lookup k r)) eqn:E; [|reflexivity]. apply lookup_some_in_keys in E. contradiction.
+Qed.
+
+Lemma keys_nodup_perm {A} (a b : list (bytes * A)) : Permutation a b -> keys_nodup a = true -> keys_nodup b = true.
+Proof.
+  intros P. rewrite !keys_nodup_NoDup. apply Permutation_NoDup. now apply Permutation_map.
+Qed.
+
+Lemma lookup_perm {A} (a b : list (bytes * A)) k :
+  Permutation a b -> keys_nodup a = true -> lookup k a = lookup k b.
+Proof.
+  intros P ND. pose proof (keys_nodup_perm _ _ P ND) as ND'.
+  destruct (lookup k a) as [v|] eqn:La.
+  - symmetry. apply in_lookup_nodup; [assumption|]. apply (Permutation_in _ P). now apply lookup_in.
+  - destruct (lookup k b) as [v|] eqn:Lb; [|reflexivity].
+    apply lookup_in in Lb. apply (Permutation_in _ (Permutation_sym P)) in Lb.
+    apply in_lookup in Lb. rewrite La in Lb. discriminate.
+Qed.
+
+Lemma has_topic_perm a b : Permutation a b -> has_topic a = has_topic b.
+Proof.
+  intros P. unfold has_topic. destruct (existsb _ a) eqn:Ea; symmetry.
+  - apply existsb_exists in Ea as (x & Hx & T). apply existsb_exists. exists x. split; [|assumption].
+    now apply (Permutation_in _ P).
+  - destruct (existsb (fun kv => is_topic_key (fst kv)) b) eqn:Eb; [|reflexivity].
+    apply existsb_exists in Eb as (x & Hx & T).
+    assert (existsb (fun kv => is_topic_key (fst kv)) a = true) as C.
+    { apply existsb_exists. exists x. split; [|assumption]. now apply (Permutation_in _ (Permutation_sym P)). }
+    congruence.
+Qed.
+
+(* two iteration orders of the same parameter map give ConfigMaps that are equal as finite maps
+   (the nested default.topic.config map compared as a finite map too) *)
+Definition same_cval (a b : option cval) : Prop :=
+  match a, b with
+  | Some (VMap x), Some (VMap y) => forall k, lookup k x = lookup k y
+  | _, _ => a = b
+  end.
+
+Lemma apply_conf_order (ps ps' : pmap) (m : cmap) :
+  Permutation ps ps' -> keys_nodup ps = true ->
+  (has_topic ps = true -> dtc_ok m /\ lookup (lp ++ dtc) ps = None) ->
+  exists cm cm', apply_conf ps m = Some cm /\ apply_conf ps' m = Some cm'
+                 /\ forall k, same_cval (lookup k cm) (lookup k cm').
+Proof.
+  intros P ND Pre.
+  pose proof (keys_nodup_perm _ _ P ND) as ND'.
+  assert (forall k, lookup k ps = lookup k ps') as LP by (intros k; now apply lookup_perm).
+  pose proof (has_topic_perm _ _ P) as TP.
+  destruct (apply_conf_char ps m ND Pre) as (cm & H & C).
+  destruct (apply_conf_char ps' m ND') as (cm' & H' & C').
+  { rewrite <- TP, <- LP. exact Pre. }
+  exists cm, cm'. repeat split; try assumption. intros k.
+  destruct (bytes_eqb_spec k dtc) as [->|Nk].
+  - destruct (lookup (lp ++ dtc) ps) as [v|] eqn:L.
+    + rewrite (oc_param _ _ _ C dtc v dtc_not_topic L).
+      rewrite LP in L. rewrite (oc_param _ _ _ C' dtc v dtc_not_topic L). reflexivity.
+    + case_eq (has_topic ps); intros T; assert (T' := T); rewrite TP in T'.
+      * destruct (oc_dtc_topic _ _ _ C T) as (sub & Hs & Hx).
+        destruct (oc_dtc_topic _ _ _ C' T') as (sub' & Hs' & Hx').
+        rewrite Hs, Hs'. cbn. intros x. now rewrite Hx, Hx', LP.
+      * rewrite (oc_dtc_same _ _ _ C L T). rewrite LP in L.
+        rewrite (oc_dtc_same _ _ _ C' L T').
+        unfold same_cval. destruct (lookup dtc m) as [[?|?]|]; auto.
+  - assert (lookup k cm = lookup k cm') as E.
+    { destruct (has_prefix tp k) eqn:HT.
+      - rewrite (oc_other _ _ _ C k Nk (or_introl HT)), (oc_other _ _ _ C' k Nk (or_introl HT)). reflexivity.
+      - destruct (lookup (lp ++ k) ps) as [v|] eqn:L.
+        + rewrite (oc_param _ _ _ C k v HT L). rewrite LP in L. now rewrite (oc_param _ _ _ C' k v HT L).
+        + rewrite (oc_other _ _ _ C k Nk (or_intror L)). rewrite LP in L.
+          now rewrite (oc_other _ _ _ C' k Nk (or_intror L)). }
+    rewrite E. unfold same_cval. destruct (lookup k cm') as [[?|?]|]; auto.
 Qed.
